@@ -22,6 +22,7 @@ def run(model, rep, tier):
     r2_stated_invariants(ctx, rep)
     r3_default_mode(ctx, rep)
     r4_low_link_discipline(ctx, rep)
+    r5_owns_representation(ctx, rep)
     rep.units['cfg'] = ctx.cfg_stats
 
 
@@ -636,3 +637,172 @@ def _parents_of(node, stop):
         node = node._parent
         out.append(node)
     return out
+
+
+# ---------------------------------------------------------------------------------------------
+# R5 -- the graph owns its representation
+
+FRESH, ALIAS, UNKNOWN_F = 'fresh', 'alias', 'unknown'
+
+
+def _join(vals):
+    vals = list(vals)
+    if not vals:
+        return UNKNOWN_F
+    if ALIAS in vals:
+        return ALIAS
+    if UNKNOWN_F in vals:
+        return UNKNOWN_F
+    return FRESH
+
+
+def _closures_for(cls, attr):
+    """function nodes that ``self.<attr>`` may denote: ``self.attr = name`` in __init__ where *name*
+    is bound by local ``def`` / ``lambda`` assignments (one per branch)"""
+    init = cls.methods.get('__init__')
+    if init is None:
+        return None
+    names = set()
+    for n in ast.walk(init.node):
+        if isinstance(n, ast.Assign) and any(isinstance(t, ast.Attribute) and t.attr == attr and
+                                             is_name(t.value, 'self') for t in n.targets):
+            if isinstance(n.value, ast.Name):
+                names.add(n.value.id)
+            elif isinstance(n.value, ast.Lambda):
+                names.add(n.value)
+            else:
+                return None
+    out = []
+    for nm in names:
+        if isinstance(nm, ast.Lambda):
+            out.append(nm)
+            continue
+        found = False
+        for n in ast.walk(init.node):
+            if isinstance(n, ast.FunctionDef) and n.name == nm:
+                out.append(n)
+                found = True
+            if isinstance(n, ast.Assign) and any(is_name(x, nm) for t in n.targets for x in ast.walk(t)
+                                                 if isinstance(x, ast.Name)):
+                if isinstance(n.value, ast.Lambda):
+                    out.append(n.value)
+                    found = True
+                elif any(is_name(t, nm) for t in n.targets):
+                    return None
+        if not found:
+            return None
+    return out or None
+
+
+def _freshness(ctx, cls, fnode, g, nid, e, depth=0):
+    """is the object denoted by expression *e* (evaluated at CFG node *nid* of function *fnode*)
+    created by the graph's own code on every path (FRESH), may it be an object handed in by the
+    caller (ALIAS), or is that unknown"""
+    from .common import reaching_defs
+    if depth > 6:
+        return UNKNOWN_F
+    if isinstance(e, (ast.Set, ast.SetComp, ast.ListComp, ast.DictComp, ast.List, ast.Dict, ast.Tuple)):
+        return FRESH
+    if isinstance(e, ast.BinOp) and isinstance(e.op, (ast.BitAnd, ast.BitOr, ast.Sub, ast.BitXor)):
+        return FRESH
+    if isinstance(e, ast.IfExp):
+        return _join([_freshness(ctx, cls, fnode, g, nid, e.body, depth + 1),
+                      _freshness(ctx, cls, fnode, g, nid, e.orelse, depth + 1)])
+    if isinstance(e, ast.Call):
+        f = e.func
+        if isinstance(f, ast.Name) and f.id in ('set', 'list', 'dict', 'sorted'):
+            return FRESH
+        if isinstance(f, ast.Attribute) and f.attr in ('copy', 'union', 'intersection', 'difference',
+                                                       'symmetric_difference'):
+            return FRESH
+        cands = None
+        if isinstance(f, ast.Attribute) and is_name(f.value, 'self'):
+            cands = _closures_for(cls, f.attr)
+        if not cands:
+            return UNKNOWN_F
+        vals = []
+        for fn in cands:
+            if isinstance(fn, ast.Lambda):
+                ps = {a.arg for a in fn.args.args}
+                vals.append(ALIAS if isinstance(fn.body, ast.Name) and fn.body.id in ps else
+                            _freshness(ctx, cls, fn, None, None, fn.body, depth + 1))
+                continue
+            from sa.cfg import NoRaise, build_cfg
+            g2 = build_cfg(fn, ctx.hier, NoRaise(), None, name=fn.name)
+            rets = [n for n in g2.nodes if n.kind == 'stmt' and isinstance(n.ast, ast.Return)]
+            if not rets:
+                vals.append(UNKNOWN_F)
+            for r in rets:
+                vals.append(UNKNOWN_F if r.ast.value is None else
+                            _freshness(ctx, cls, fn, g2, r.id, r.ast.value, depth + 1))
+        return _join(vals)
+    if isinstance(e, ast.Name):
+        if g is None:
+            return UNKNOWN_F
+        defs = reaching_defs(g, nid, e.id)
+        a = fnode.args
+        params = {x.arg for x in a.posonlyargs + a.args + a.kwonlyargs}
+        vals = []
+        # does the entry reach the use without a definition?  then the parameter itself arrives
+        if e.id in params:
+            seen, work, hit_entry = set(), [p for p, _k in g.pred[nid]], False
+            while work:
+                n = work.pop()
+                if n in seen:
+                    continue
+                seen.add(n)
+                node = g.node(n)
+                if n == g.entry:
+                    hit_entry = True
+                    continue
+                if node.kind == 'stmt' and isinstance(node.ast, ast.Assign) and any(
+                        is_name(x, e.id) for t in node.ast.targets for x in ast.walk(t)):
+                    continue
+                work.extend(p for p, _k in g.pred[n])
+            if hit_entry:
+                vals.append(ALIAS)
+        for d in defs:
+            if isinstance(d, ast.expr):
+                dn = [n.id for n in g.nodes if n.kind == 'stmt' and isinstance(n.ast, ast.Assign)
+                      and n.ast.value is d]
+                vals.append(_freshness(ctx, cls, fnode, g, dn[0] if dn else nid, d, depth + 1))
+            else:
+                vals.append(UNKNOWN_F)
+        return _join(vals)
+    return UNKNOWN_F
+
+
+def r5_owns_representation(ctx, rep, R='C20.R5'):
+    rep.rule(R, 'the graph owns its representation: every set it keeps as the neighbours of a node is '
+             'an object created by its own code on every path (result of a set operation, set(...), a '
+             'comprehension) -- never an object handed in by the caller, which the caller (or a later '
+             'in-place update for another node) could change behind the graph\'s back')
+    cls = ctx.model.cls('digraph.DiGraph')
+    n = 0
+    for fi in cls.methods.values():
+        g = None
+        for st in ast.walk(fi.node):
+            if isinstance(st, ast.Assign) and any(
+                    isinstance(t, ast.Subscript) and
+                    (alias_dotted_(fi.node, t.value) == 'self._neighbors') for t in st.targets):
+                g = g or ctx.cfg(fi)
+                nid = [x.id for x in g.nodes if x.kind == 'stmt' and x.ast is st]
+                if not nid:
+                    continue
+                n += 1
+                v = _freshness(ctx, cls, fi.node, g, nid[0], st.value)
+                if v == UNKNOWN_F:
+                    rep.undecide(R, '%s: %s' % (fi.qualname, norm(st)), 'cannot tell whether the stored '
+                                 'neighbour set is created by the graph itself')
+                    continue
+                rep.check(v == FRESH, R, '%s: %s stores a set created here' % (fi.qualname, norm(st)),
+                          'the set stored as the neighbours of a node may be the very object the caller '
+                          'passed in (no copy on some path): two nodes can end up sharing one set, and '
+                          'later additions for one node change the edges of the other',
+                          key='owned:' + norm(st), func=fi.qualname, where=ctx.where(fi, st))
+    rep.floor(R, n, 1, 'stores into the neighbour map')
+
+
+def alias_dotted_(fnode, e):
+    from .common import alias_dotted
+    return alias_dotted(fnode, e)
